@@ -606,7 +606,7 @@ static void op_addrows (mpq_QSdata * p, int ranged)
 		ind = (int *) calloc (total + 2 * num + 3, sizeof (int));
 	}
 	/* the rows need not be stored back to back: gap slots (belonging to no row) precede every row in two of three calls */
-	gap = (num + nval) % 3;
+	gap = (num + nval + 1) % 3;
 	for (i = 0; i < num && !bad_args; i++)
 	{
 		tk_q (rhs[i]);
@@ -657,7 +657,7 @@ static void op_addcols (mpq_QSdata * p)
 	}
 	val = mpq_EGlpNumAllocArray (nval + 2 * num + 3);
 	ind = (int *) calloc (nval + 2 * num + 3, sizeof (int));
-	gap = (num + nval) % 3;		/* as in op_addrows: columns not stored back to back */
+	gap = (num + nval + 1) % 3;		/* as in op_addrows: columns not stored back to back */
 	for (i = 0; i < num && !bad_args; i++)
 	{
 		tk_q (obj[i]); tk_q (lo[i]); tk_q (up[i]);
